@@ -15,6 +15,7 @@ func init() { register("C05", checkC05) }
 var noiseAttrs = []string{
 	` onbeforetoggle="t()"`, ` onscrollend="s()"`, ` onpointerrawupdate="p()"`, ` onbeforematch="m()"`, ` onslotchange="c()"`, ` oncontextlost="l()"`, ` onsecuritypolicyviolation="v()"`, ` onwebkitanimationend="w()"`, ` onfoo="any()"`,
 	` onclick="steal(1)"`, ` onload="x()"`, ` onerror="y()"`, ` onmouseover="z()"`, ` ONCLICK="up()"`, ` onfocus="f()"`,
+	` class="language-go highlight js%d"`, ` class="lang-js x%d"`, ` class="hljs language-python"`, ` class="wp-block-code%d"`,
 	` id="zz%d"`, ` class="foo bar%d"`, ` class="x%d"`, ` style="color:red"`, ` style="font-weight:bold;margin:0"`,
 	` data-x="v%d"`, ` data-track-id="%d"`, ` foo="bar"`, ` ng-click="go()"`, ` x-bar="1"`, ` @click="a"`,
 	` title="zt%d"`, ` lang="en"`, ` dir="ltr"`, ` align="left"`, ` bgcolor="#fff"`, ` width="10"`, ` height="10"`,
